@@ -3,10 +3,13 @@ import QuiverModel.Lemmas.Types.ShapeLemmas
 Soundness of `checkRel` in mode ALL on first-order cycle-free types of an ordered table.
 
 `Valid T a b` — every value of `a` is a value of `b` (under any boundary stacks; for first-order
-types the stack is irrelevant). The assumption set may contain *pending* pairs (the keys inserted
+types the stack is irrelevant). The bookkeeping (`Inv`, `Post`, `Good`, `RecGood`) is stated for an
+arbitrary relation `W` on type ids that is closed under the rules the ALL-mode arms rely on (`Rules`):
+`Valid` is one such relation (soundness), the stateless syntactic relation `Sub` (`Lemmas/Types/Sub.lean`)
+another (the verdict does not depend on the assumption set and the stacks). The assumption set may contain *pending* pairs (the keys inserted
 by the union arms before their variants are checked); on an ordered table every sub-check is about
 a pair with a strictly smaller id sum, so a pending pair is never the one looked up:
-`Inv T μ asm m` — every assumed pair is valid or has id sum ≥ m.
+`Inv W μ asm m` — every assumed pair is valid or has id sum ≥ m.
 -/
 namespace QM.Types
 
@@ -14,42 +17,42 @@ def Valid (T : Table) (a b : Nat) : Prop := ∀ st st' v, inh T st a v → inh T
 
 /-- `μ` measures a type id; a sub-check is always about a pair with a strictly smaller `μ`-sum
 (`ChildLt`): ids themselves on an ordered table, the first-order rank on any table. -/
-def Inv (T : Table) (μ : Nat → Nat) (asm : Asm) (m : Nat) : Prop :=
-  ∀ p ∈ asm, Valid T p.1 p.2 ∨ m ≤ μ p.1 + μ p.2
+def Inv (W : Nat → Nat → Prop) (μ : Nat → Nat) (asm : Asm) (m : Nat) : Prop :=
+  ∀ p ∈ asm, W p.1 p.2 ∨ m ≤ μ p.1 + μ p.2
 
 /-- the children of a first-order type are `μ`-smaller than the type -/
 def ChildLt (T : Table) (μ : Nat → Nat) : Prop :=
   ∀ {t : Nat} {ty : Ty}, T.types[t]? = some ty → FO T t → ∀ c ∈ ty.children T, μ c < μ t
 
 /-- everything new in `asm'` is valid -/
-def Post (T : Table) (asm asm' : Asm) : Prop := ∀ p ∈ asm', p ∈ asm ∨ Valid T p.1 p.2
+def Post (W : Nat → Nat → Prop) (asm asm' : Asm) : Prop := ∀ p ∈ asm', p ∈ asm ∨ W p.1 p.2
 
-theorem Inv.mono {T : Table} {μ : Nat → Nat} {asm : Asm} {m m' : Nat} (h : Inv T μ asm m) (hm : m' ≤ m) : Inv T μ asm m' :=
+theorem Inv.mono {W : Nat → Nat → Prop} {μ : Nat → Nat} {asm : Asm} {m m' : Nat} (h : Inv W μ asm m) (hm : m' ≤ m) : Inv W μ asm m' :=
   fun p hp => (h p hp).imp id (fun h => Nat.le_trans hm h)
 
-theorem Inv.post {T : Table} {μ : Nat → Nat} {asm asm' : Asm} {m : Nat} (h : Inv T μ asm m) (hp : Post T asm asm') :
-    Inv T μ asm' m :=
+theorem Inv.post {W : Nat → Nat → Prop} {μ : Nat → Nat} {asm asm' : Asm} {m : Nat} (h : Inv W μ asm m) (hp : Post W asm asm') :
+    Inv W μ asm' m :=
   fun p hp' => (hp p hp').elim (h p) Or.inl
 
-theorem Post.refl (T : Table) (asm : Asm) : Post T asm asm := fun _ hp => Or.inl hp
+theorem Post.refl (W : Nat → Nat → Prop) (asm : Asm) : Post W asm asm := fun _ hp => Or.inl hp
 
-theorem Post.trans {T : Table} {a b c : Asm} (h1 : Post T a b) (h2 : Post T b c) : Post T a c :=
+theorem Post.trans {W : Nat → Nat → Prop} {a b c : Asm} (h1 : Post W a b) (h2 : Post W b c) : Post W a c :=
   fun p hp => (h2 p hp).elim (h1 p) Or.inr
 
-theorem Inv.cons {T : Table} {μ : Nat → Nat} {asm : Asm} {a b : Nat}
-    (h : Inv T μ asm (μ a + μ b + 1)) : Inv T μ ((a, b) :: asm) (μ a + μ b) := by
+theorem Inv.cons {W : Nat → Nat → Prop} {μ : Nat → Nat} {asm : Asm} {a b : Nat}
+    (h : Inv W μ asm (μ a + μ b + 1)) : Inv W μ ((a, b) :: asm) (μ a + μ b) := by
   intro p hp
   rcases List.mem_cons.mp hp with rfl | hp
   · exact Or.inr (Nat.le_refl _)
   · exact (h p hp).imp id (fun h => by omega)
 
 /-- what a sub-check guarantees: new assumptions are valid; a `true` verdict is valid -/
-def Good (T : Table) (res : Res) (asm : Asm) (P : Prop) : Prop :=
-  ∀ r asm', res = some (r, asm') → Post T asm asm' ∧ (r = true → P)
+def Good (W : Nat → Nat → Prop) (res : Res) (asm : Asm) (P : Prop) : Prop :=
+  ∀ r asm', res = some (r, asm') → Post W asm asm' ∧ (r = true → P)
 
-theorem allS_good {α : Type} (T : Table) {μ : Nat → Nat} {f : Asm → α → Res} {R : α → Prop} {m : Nat} :
-    ∀ (l : List α), (∀ x ∈ l, ∀ s, Inv T μ s m → Good T (f s x) s (R x)) →
-      ∀ s, Inv T μ s m → Good T (allS f l s) s (∀ x ∈ l, R x) := by
+theorem allS_good {α : Type} (W : Nat → Nat → Prop) {μ : Nat → Nat} {f : Asm → α → Res} {R : α → Prop} {m : Nat} :
+    ∀ (l : List α), (∀ x ∈ l, ∀ s, Inv W μ s m → Good W (f s x) s (R x)) →
+      ∀ s, Inv W μ s m → Good W (allS f l s) s (∀ x ∈ l, R x) := by
   intro l
   induction l with
   | nil =>
@@ -79,9 +82,9 @@ theorem allS_good {α : Type} (T : Table) {μ : Nat → Nat} {f : Asm → α →
         · exact hx.2 rfl
         · exact hrest.2 hr y hy
 
-theorem anyS_good {α : Type} (T : Table) {μ : Nat → Nat} {f : Asm → α → Res} {R : α → Prop} {m : Nat} :
-    ∀ (l : List α), (∀ x ∈ l, ∀ s, Inv T μ s m → Good T (f s x) s (R x)) →
-      ∀ s, Inv T μ s m → Good T (anyS f l s) s (∃ x ∈ l, R x) := by
+theorem anyS_good {α : Type} (W : Nat → Nat → Prop) {μ : Nat → Nat} {f : Asm → α → Res} {R : α → Prop} {m : Nat} :
+    ∀ (l : List α), (∀ x ∈ l, ∀ s, Inv W μ s m → Good W (f s x) s (R x)) →
+      ∀ s, Inv W μ s m → Good W (anyS f l s) s (∃ x ∈ l, R x) := by
   intro l
   induction l with
   | nil =>
@@ -110,26 +113,26 @@ theorem anyS_good {α : Type} (T : Table) {μ : Nat → Nat} {f : Asm → α →
         obtain ⟨y, hy, hRy⟩ := hrest.2 hr
         exact ⟨y, by simp [hy], hRy⟩
 
-theorem Good.const_false {T : Table} {asm : Asm} {P : Prop} : Good T (some (false, asm)) asm P := by
+theorem Good.const_false {W : Nat → Nat → Prop} {asm : Asm} {P : Prop} : Good W (some (false, asm)) asm P := by
   intro r asm' h
   simp only [Option.some.injEq, Prod.mk.injEq] at h
   obtain ⟨rfl, rfl⟩ := h
   exact ⟨Post.refl _ _, fun h => by simp at h⟩
 
-theorem Good.const_true {T : Table} {asm : Asm} {P : Prop} (hP : P) : Good T (some (true, asm)) asm P := by
+theorem Good.const_true {W : Nat → Nat → Prop} {asm : Asm} {P : Prop} (hP : P) : Good W (some (true, asm)) asm P := by
   intro r asm' h
   simp only [Option.some.injEq, Prod.mk.injEq] at h
   obtain ⟨rfl, rfl⟩ := h
   exact ⟨Post.refl _ _, fun _ => hP⟩
 
-theorem Good.imp {T : Table} {res : Res} {asm : Asm} {P Q : Prop} (h : Good T res asm P) (hPQ : P → Q) :
-    Good T res asm Q :=
+theorem Good.imp {W : Nat → Nat → Prop} {res : Res} {asm : Asm} {P Q : Prop} (h : Good W res asm P) (hPQ : P → Q) :
+    Good W res asm Q :=
   fun r asm' hr => ⟨(h r asm' hr).1, fun hrt => hPQ ((h r asm' hr).2 hrt)⟩
 
 /-- the recursive call is good on every first-order pair with id sum below `bound` -/
-def RecGood (T : Table) (μ : Nat → Nat) (rec : Rec) (bound : Nat) : Prop :=
-  ∀ asm st x y, FO T x → FO T y → μ x + μ y < bound → Inv T μ asm (μ x + μ y + 1) →
-    Good T (rec asm st x y) asm (Valid T x y)
+def RecGood (T : Table) (W : Nat → Nat → Prop) (μ : Nat → Nat) (rec : Rec) (bound : Nat) : Prop :=
+  ∀ asm st x y, FO T x → FO T y → μ x + μ y < bound → Inv W μ asm (μ x + μ y + 1) →
+    Good W (rec asm st x y) asm (W x y)
 
 /-! ### semantic steps -/
 
@@ -241,5 +244,30 @@ theorem Valid.part_part {T : Table} {a b : Nat} {n1 n2 : Option Name} {fs1 fs2 :
   · obtain ⟨f1, hf1, hl, hval⟩ := hf f2 hf2
     obtain ⟨q, hq, hql, hqv⟩ := hfs f1 hf1
     exact ⟨q, hq, hl ▸ hql, hval _ _ _ hqv⟩
+
+/-- the closure rules of a relation on type ids that the ALL-mode arms of `check_type_relation` rely
+on (one per arm; `refl_fo` / `tuple_same` for the two equal-id fast paths) -/
+structure Rules (T : Table) (W : Nat → Nat → Prop) : Prop where
+  refl_fo : ∀ {a : Nat}, FO T a → W a a
+  never_left : ∀ {a b : Nat} {tb : Ty}, T.types[a]? = some (.union []) → T.types[b]? = some tb → W a b
+  union_left : ∀ {a b : Nat} {vs : List Nat} {tb : Ty}, T.types[a]? = some (.union vs) →
+    T.types[b]? = some tb → (∀ i ∈ vs, W i b) → W a b
+  union_right : ∀ {a b : Nat} {vs : List Nat}, T.types[b]? = some (.union vs) → (∃ i ∈ vs, W a i) → W a b
+  tuple_same : ∀ {a b i : Nat}, FO T a → T.types[a]? = some (.tuple i) → T.types[b]? = some (.tuple i) → W a b
+  tuple_tuple : ∀ {a b i1 i2 : Nat} {info1 info2 : TupleInfo},
+    T.types[a]? = some (.tuple i1) → T.types[b]? = some (.tuple i2) →
+    T.tuples[i1]? = some info1 → T.tuples[i2]? = some info2 →
+    info1.name = info2.name → info1.fields.length = info2.fields.length →
+    (∀ p ∈ info1.fields.zip info2.fields, p.1.1 = p.2.1 ∧ W p.1.2 p.2.2) → W a b
+  tuple_part : ∀ {a b c : Nat} {ci : TupleInfo} {pn : Option Name} {pfs : List (Name × Nat)},
+    T.types[a]? = some (.tuple c) → T.types[b]? = some (.part pn pfs) →
+    T.tuples[c]? = some ci → ¬ (pn.isSome ∧ ci.name ≠ pn) →
+    (∀ pf ∈ pfs, ∃ cf ∈ ci.fields, cf.1 = some pf.1 ∧ W cf.2 pf.2) → W a b
+  part_part : ∀ {a b : Nat} {n1 n2 : Option Name} {fs1 fs2 : List (Name × Nat)},
+    T.types[a]? = some (.part n1 fs1) → T.types[b]? = some (.part n2 fs2) →
+    nameConflict Variant.current .all n1 n2 = false →
+    (∀ f2 ∈ fs2, ∃ f1, fs1.find? (fun f1 => f1.1 == f2.1) = some f1 ∧ W f1.2 f2.2) → W a b
+  same_atom : ∀ {a b : Nat} {ty : Ty}, T.types[a]? = some ty → T.types[b]? = some ty →
+    (ty = .integer ∨ ty = .binary ∨ ty = .reference ∨ ∃ r, ty = .resource r) → W a b
 
 end QM.Types
